@@ -38,7 +38,7 @@ func writeIfChanged(path string, content []byte) (changed bool, err error) {
 // packName packs a Go string into one natural number: the big-endian base-256 number whose digits
 // are the byte 0x01 followed by the UTF-8 bytes of the name. The leading 0x01 makes the packing
 // injective on ALL byte strings (without it "\x00A" and "A" would collide) and the empty name is 1.
-// Lean side: `Kmip.pack` / `Kmip.unpack` in KmipModel/Model/Registry.lean.
+// Lean side: `Kmip.Reg.pack` / `Kmip.Reg.unpack` in KmipModel/Model/Registry.lean.
 func packName(s string) *big.Int {
 	b := append([]byte{1}, []byte(s)...)
 	return new(big.Int).SetBytes(b)
